@@ -258,8 +258,9 @@ def r15_5(chk: Check):
                     ok, how = is_zero(e - sp.Symbol("self.Tnucl", real=True) * sp.Symbol(next(iter(W)), real=True) ** (1 / sp.Symbol("self.mu", real=True)), chk.seed)
                 chk.ob("R15.5", f_.where(st), f"{q}: T+ = Tn w+^(1/mu) (inverse of w+ = (T+/Tn)^mu)", ok, how, key=f"Tp|{q}", how=how)
     # efficiencyFactor: wp = (Tp/Tn)**mu, wm from flux conservation: the enthalpies handed to the two integrations
+    from .c03 import records_written_out
     from .c06 import written_out
-    fe = written_out(S, S.func(f"{TM}.efficiencyFactor"))      # (a loop over the two waves is written out case by case)
+    fe = written_out(S, records_written_out(S, S.func(f"{TM}.efficiencyFactor")))      # (a loop over the two waves is written out case by case; records as tuples)
     ce = Ctx(S, fe)
     exx = hydro_extractor(S)
     ips = calls_in(fe.node, "self.integratePlasma")
@@ -277,6 +278,11 @@ def r15_5(chk: Check):
         wm_e = exx.expr(_matching_canon(S, fe, ce.resolve(wma, keep=keep)), dict(TENV)) if wma is not None else None
         wps = exx.sym(WPn) if WPn else wp_e
         ok2 = isinstance(wm_e, sp.Basic) and wps is not None and is_zero(wm_e - wps * vpS / (1 - vpS ** 2) * (1 - vmS ** 2) / vmS)[0]
+        if not ok2 and isinstance(wp_e, sp.Basic) and wma is not None:
+            # ... or, with every temporary looked through, in terms of the value that is handed over as w+ (both enthalpies may be defined from a
+            # common temporary instead of w- from the local holding w+)
+            wm_f = exx.expr(_matching_canon(S, fe, ce.resolve(wma)), dict(TENV))
+            ok2 = isinstance(wm_f, sp.Basic) and is_zero(wm_f - wp_e * vpS / (1 - vpS ** 2) * (1 - vmS ** 2) / vmS)[0]
     chk.ob("R15.5", fe.where(), "efficiencyFactor: w+ = (T+/Tn)^mu and w- = w+ gamma+^2 v+ / (gamma-^2 v-) (energy flux)", bool(ok1 and ok2), key="kappa-enthalpies")
     # bracket trimming in findMatching: the v+ at which the template enthalpy w+(alpha+) changes sign solves (1 - 3 alpha+(v+, v-)) mu = nu
     ff = S.func(f"{TM}.findMatching")
@@ -310,6 +316,17 @@ def r15_5(chk: Check):
     few = S.func(f"{TM}._eqWall")
     chk.touch(fmx.name, few.name)
     nested = [f for f in S.modules[fmx.module].funcs.values() if f.parent is fmx and any(True for _ in calls_in(f.node, "findJouguetVelocity"))]
+    if len(nested) != 1:
+        # ... or the function whose root maxAl searches, when it is not a closure of maxAl: a method / module-level function, possibly with
+        # parameters bound by functools.partial (c03: callables by role)
+        from .c03 import _by_role
+        rs_ = calls_in(fmx.node, "root_scalar")
+        try:
+            cand = _by_role(S, f"{TM}.maxAl", fmx, rs_, "f", 0, "function whose root is searched").fi if rs_ else None
+        except AnchorMissing:
+            cand = None
+        if cand is not None and any(True for _ in calls_in(cand.node, "findJouguetVelocity")):
+            nested = [cand]
     okm, howm = None, "the nested residual of maxAl (the function evaluated at vw = findJouguetVelocity(alpha_n)) not found"
     pe = _params(few)
     if len(nested) == 1 and len(pe) == 3:
@@ -340,16 +357,17 @@ def r15_5(chk: Check):
                 closure_vm = plain.expr(cr.resolve(ast.parse("vm", mode="eval").body), dict(TENV)) if False else None
                 # v- of the residual: the closure variable of maxAl, which must be the sound speed behind the wall
                 cm = Ctx(S, fmx)
-                vm_defs = [st for st in own_nodes(fmx.node) if isinstance(st, (ast.Assign, ast.AnnAssign)) and st.value is not None and eqx(st.value, "self.cb")]
-                vmS = plain.sym(_target_name(vm_defs[0])) if len(vm_defs) == 1 else None
-                if vmS is not None:
-                    cbS = plain.sym("self.cb")
-                    Mt = Mt.subs(vmS, cbS)          # the closure variable, whether or not it was looked through
-                    vmS = cbS
-                    Es = Et.subs({a_: A, v_: vmS}, simultaneous=True)
-                    okm, howm = is_zero(sp.simplify(Mt - Es), chk.seed, ranges={w_: (0.5, 2), vp_s: (0.1, 0.9), vmS: (0.1, 0.9), mu_: (4, 5), nu_: (4, 5), alN_: (0.01, 0.3)})
-                else:
-                    okm, howm = False, "v- of the residual is not the sound speed behind the wall (self.cb)"
+                # (a local that is defined once as `self.cb` -- in maxAl, or at the top of a residual that receives v- as a bound parameter -- is
+                # self.cb, whether or not it was looked through; the term identity below decides whether v- of the residual is the sound speed)
+                cbS = plain.sym("self.cb")
+                for f_, c_ in ((fmx, cm), (fr, cr)):
+                    for st in own_nodes(f_.node):
+                        if isinstance(st, (ast.Assign, ast.AnnAssign)) and st.value is not None and eqx(st.value, "self.cb") and _target_name(st) in c_.local_defs():
+                            Mt = Mt.subs(plain.sym(_target_name(st)), cbS)
+                Es = Et.subs({a_: A, v_: cbS}, simultaneous=True)
+                okm, howm = is_zero(sp.simplify(Mt - Es), chk.seed, ranges={w_: (0.5, 2), vp_s: (0.1, 0.9), cbS: (0.1, 0.9), mu_: (4, 5), nu_: (4, 5), alN_: (0.01, 0.3)})
+                if not okm and cbS not in Mt.free_symbols:
+                    howm = "v- of the residual is not the sound speed behind the wall (self.cb)"
     chk.ob("R15.5", fmx.where(), "maxAl: the residual evaluated at vw = vJ is the wall residual _eqWall with v- = cb, its own v+ and (alpha+, w+) related by "
            "wFromAlpha (same exponents and coefficients)", okm, howm, key="maxAl-residual", how=howm if okm else "")
     chk.floor("R15.5", 10)
